@@ -627,6 +627,7 @@ def run_hp(ctx, R, cases):
                 ctx.violation("DRI emitted although restart_interval = 0", {"case": c}, signature="dri-unexpected")
     hres = R.harness(hl, lambda i: cases[meta[i][0]])
     mres = R.model(ml)
+    run_subsamp(ctx, R, cases, meta, hres)
     for (ci, what, e, segs), h, m in zip(meta, hres, mres):
         c = cases[ci]
         if what.startswith("emit-"):
@@ -699,6 +700,25 @@ def run_hp(ctx, R, cases):
                 ctx.violation("tj3DecompressHeader/tj3Get do not return what was used to compress: " + "; ".join(bad), {"case": c, "impl": h[:300]}, signature="header-tjrd")
             if c["api"] == "tj":
                 ctx.count("hp-tj-tjrd", 1, ("tjrd", h[:200]))
+
+
+def run_subsamp(ctx, R, cases, meta, hres):
+    """getSubsamp: the level reported by tj3DecompressHeader against the model's get_subsamp on the
+    colourspace and sampling factors that jpeg_read_header reports for the same stream"""
+    rd = {}
+    pairs = []
+    for (ci, what, e, segs), h in zip(meta, hres):
+        if what == "rd" and h.startswith("hdr"):
+            rd[ci] = h
+        elif what == "tjrd" and ci in rd and h.startswith("tj "):
+            kv = dict(x.split("=", 1) for x in rd[ci].split(" |")[0].split() if "=" in x)
+            tkv = dict(x.split("=", 1) for x in h.split(" |")[0].split() if "=" in x)
+            comps = ",".join(".".join(k.split(".")[1:3]) for k in kv["comps"].split(","))
+            pairs.append((ci, "subsamp %s %s" % (kv["cs"], comps), tkv["sub"]))
+    mres = R.model([p[1] for p in pairs])
+    for (ci, line, sub), m in zip(pairs, mres):
+        R.corr("subsamp", line, m, sub, cases[ci])
+        ctx.count("hp-subsamp", 1, ("subsamp", line, sub))
 
 
 # --------------------------------------------------------------------------- copying
@@ -812,7 +832,9 @@ def run_xf(ctx, R, cases):
         if src_icc[0] == "ok" or not dicc:
             want = src_icc
         elif src_icc[0] == "absent":
-            want = ("ok", dicc)
+            # option copies APP2 but the source has none: the documentation ("overrides") leaves open whether the
+            # instance profile is written; not judged
+            want = ("ok", dicc) if eopt not in (2, 4) else None
         else:
             want = None
         line = "rd %s %s" % (ALLSAVE, hx(rebuild(osegs, b"")))
